@@ -58,6 +58,8 @@ Definition kind_spec (k : vkind) (v : pv) : Prop :=
   | VNone => False
   (* what registry.in_choices really accepts: one choice, or a list of choices *)
   | VChoices cs => choice_str cs v \/ (exists l, v = PList l /\ Forall (choice_str cs) l)
+  | VChoiceStr cs => choice_str cs v                                   (* "use": one member, a string *)
+  | VChoiceList cs => exists l, v = PList l /\ Forall (choice_str cs) l (* "key_ops": an array of members *)
   | VUnknown _ => False
   end.
 
@@ -100,6 +102,23 @@ Proof.
       apply (forallb_Forall (fun x => in_strs x l)); [intros; apply in_strs_spec|].
       destruct (forallb (fun x => in_strs x l) l0); [reflexivity | discriminate].
     + intros [(c & _ & E)|(l1 & E & H)]; [discriminate|]. inversion E; subst l1.
+      apply (forallb_Forall (fun x => in_strs x l)) in H; [|intros; apply in_strs_spec].
+      rewrite H. reflexivity.
+  - (* VChoiceStr *)
+    destruct v as [|b|z|f|s|s|l0|d0];
+      try (split;
+           [ intros H; apply in_strs_spec;
+             match type of H with (if ?c then _ else _) = _ => destruct c end; [reflexivity | discriminate]
+           | intros H; apply in_strs_spec in H; rewrite H; reflexivity ]).
+    split; [discriminate | intros (c & _ & E); discriminate].
+  - (* VChoiceList *)
+    destruct v as [|b|z|f|s|s|l0|d0];
+      try (split; [discriminate | intros (l1 & E & _); discriminate]).
+    split.
+    + intros H. exists l0. split; [reflexivity|].
+      apply (forallb_Forall (fun x => in_strs x l)); [intros; apply in_strs_spec|].
+      destruct (forallb (fun x => in_strs x l) l0); [reflexivity | discriminate].
+    + intros (l1 & E & H). inversion E; subst l1.
       apply (forallb_Forall (fun x => in_strs x l)) in H; [|intros; apply in_strs_spec].
       rewrite H. reflexivity.
   - (* VUnknown *) split; [discriminate | tauto].
@@ -1036,8 +1055,8 @@ Lemma tables_ok :
   required_names value_registry_EC = ["crv"; "x"; "y"]%string /\
   required_names value_registry_OKP = ["crv"; "x"]%string /\
   member_kinds jwk_parameter_registry =
-    [("kty", VStr); ("use", VChoices ["sig"; "enc"]);
-     ("key_ops", VChoices ["sign"; "verify"; "encrypt"; "decrypt"; "wrapKey"; "unwrapKey"; "deriveKey"; "deriveBits"]);
+    [("kty", VStr); ("use", VChoiceStr ["sig"; "enc"]);
+     ("key_ops", VChoiceList ["sign"; "verify"; "encrypt"; "decrypt"; "wrapKey"; "unwrapKey"; "deriveKey"; "deriveBits"]);
      ("alg", VStr); ("kid", VStr); ("x5u", VUrl); ("x5c", VListStr); ("x5t", VStr); ("x5t#S256", VStr)]%string /\
   member_kinds value_registry_oct = [("k", VStr)]%string /\
   member_kinds value_registry_RSA =
@@ -1096,6 +1115,27 @@ Proof.
   congruence.
 Qed.
 
+Definition key_op_names : list string :=
+  ["sign"; "verify"; "encrypt"; "decrypt"; "wrapKey"; "unwrapKey"; "deriveKey"; "deriveBits"]%string.
+
+Lemma use_key_ops_typed O kt d ps k :
+  import_key O kt d ps = Ok k ->
+  (forall u, dget d (K "use") = Some u -> choice_str ["sig"; "enc"]%string u) /\
+  (forall o, dget d (K "key_ops") = Some o ->
+     exists l, o = PList l /\ Forall (choice_str key_op_names) l).
+Proof.
+  intros H. apply reject in H. destruct H as ((V1 & _ & _) & _).
+  split.
+  - intros u G.
+    destruct (V1 {| kp_name := "use"; kp_kind := VChoiceStr ["sig"; "enc"]%string;
+                    kp_private := None; kp_required := false |}) as [_ T];
+      [right; left; reflexivity|]. exact (T u G).
+  - intros o G.
+    destruct (V1 {| kp_name := "key_ops"; kp_kind := VChoiceList key_op_names;
+                    kp_private := None; kp_required := false |}) as [_ T];
+      [right; right; left; reflexivity|]. exact (T o G).
+Qed.
+
 Lemma crt_all_or_none O d ps k : import_key O KRSA d ps = Ok k -> crt_all d \/ crt_none d.
 Proof.
   intros H. apply reject in H. destruct H as (_ & _ & S).
@@ -1146,18 +1186,20 @@ Proof.
     + destruct S as (x & Ex & _). destruct I as [<-|[<-|[]]]; [eauto | congruence].
 Qed.
 
-(* member types: registry.in_choices accepts a JSON string for key_ops and a
-   JSON array for use *)
+(* member types: "key_ops" given as a JSON string and "use" given as a JSON
+   array are refused (accepted before /repo 7fefb53) *)
 Definition ex_oct (extra : dict) : dict := [(K "kty", PStr (asc "oct")); (K "k", PStr (asc "AAEC"))] ++ extra.
 
 Lemma choices_retype_witness :
-  (exists k, import_key O_yes KOct (ex_oct [(K "key_ops", PStr (asc "sign"))]) [] = Ok k) /\
-  (exists k, import_key O_yes KOct (ex_oct [(K "use", PList [PStr (asc "sig")])]) [] = Ok k) /\
+  import_key O_yes KOct (ex_oct [(K "key_ops", PStr (asc "sign"))]) [] = Err EValue /\
+  import_key O_yes KOct (ex_oct [(K "use", PList [PStr (asc "sig")])]) [] = Err EValue /\
+  (exists k, import_key O_yes KOct (ex_oct [(K "use", PStr (asc "sig")); (K "key_ops", PList [PStr (asc "sign")])]) [] = Ok k) /\
   import_key O_yes KOct (ex_oct [(K "use", PStr (asc "sig")); (K "key_ops", PStr (asc "sign"))]) [] = Err EValue /\
   import_key O_yes KOct (ex_oct [(K "use", PList [PStr (asc "sig")]); (K "key_ops", PList [PStr (asc "sign")])]) [] = Err EValue.
 Proof.
-  split; [|split; [|split]].
-  - eexists. vm_compute. reflexivity.
+  split; [|split; [|split; [|split]]].
+  - vm_compute. reflexivity.
+  - vm_compute. reflexivity.
   - eexists. vm_compute. reflexivity.
   - vm_compute. reflexivity.
   - vm_compute. reflexivity.
